@@ -41,6 +41,7 @@ type CEnv struct {
 	specDepth   int
 	noPure      bool
 	sides       *[]Tm // valid facts to be placed inside the innermost enclosing quantifier
+	qvars       []string // SMT names of the quantified variables in scope
 	pol         int   // polarity of the position being evaluated: +1 assumed, -1 to be proved, 0 unknown
 }
 
@@ -87,11 +88,9 @@ func (e *CEnv) trigger(t Tm) {
 
 // mentionsBound: does the term mention a variable bound by an enclosing quantifier?
 func (e *CEnv) mentionsBound(t Tm) bool {
-	for _, v := range e.bound {
-		for _, l := range v.flatten() {
-			if strings.Contains(l.S, "!") && strings.Contains(t.S, l.S) {
-				return true
-			}
+	for _, q := range e.qvars {
+		if strings.Contains(t.S, q) {
+			return true
 		}
 	}
 	return false
@@ -114,7 +113,16 @@ func (e *CEnv) sub() *CEnv {
 	for k, v := range e.bound {
 		n.bound[k] = v
 	}
+	n.qvars = append([]string(nil), e.qvars...)
 	return &n
+}
+
+// bindQ binds a quantified variable (all its SMT leaves are recorded as bound names).
+func (e *CEnv) bindQ(name string, v *Val) {
+	e.bound[name] = v
+	for _, l := range v.flatten() {
+		e.qvars = append(e.qvars, l.S)
+	}
 }
 
 func (e *CEnv) view() map[string]Tm {
@@ -904,7 +912,7 @@ func (e *CEnv) call(n *ast.CallExpr) *Val {
 		sub := e.sub()
 		bn := freshName(id.Name)
 		bv := &Val{T: types.Typ[types.Int], K: KInt, S: Tm{bn, m.idx()}}
-		sub.bound[id.Name] = bv
+		sub.bindQ(id.Name, bv)
 		var sides []Tm
 		sub.sides = &sides
 		body := sub.eval(n.Args[3])
@@ -927,7 +935,7 @@ func (e *CEnv) call(n *ast.CallExpr) *Val {
 		}
 		sub := e.sub()
 		bn := freshName(id.Name)
-		sub.bound[id.Name] = &Val{T: types.Typ[types.Int], K: KInt, S: Tm{bn, m.idx()}}
+		sub.bindQ(id.Name, &Val{T: types.Typ[types.Int], K: KInt, S: Tm{bn, m.idx()}})
 		var sides []Tm
 		sub.sides = &sides
 		body := sub.eval(n.Args[1])
@@ -961,7 +969,7 @@ func (e *CEnv) call(n *ast.CallExpr) *Val {
 				pats = append(pats, fmt.Sprintf("(%s %s)", e.x.trRefUF(), bn))
 			}
 		}
-		sub.bound[id.Name] = m.build(t, ts)
+		sub.bindQ(id.Name, m.build(t, ts))
 		var sides []Tm
 		sub.sides = &sides
 		body := sub.eval(n.Args[2])
@@ -1012,7 +1020,7 @@ func (e *CEnv) call(n *ast.CallExpr) *Val {
 		}
 		sub := e.sub()
 		bn := freshName(id.Name)
-		sub.bound[id.Name] = &Val{T: types.Typ[types.UnsafePointer], K: KPtr, S: Tm{bn, SInt}}
+		sub.bindQ(id.Name, &Val{T: types.Typ[types.UnsafePointer], K: KPtr, S: Tm{bn, SInt}})
 		var sides []Tm
 		sub.sides = &sides
 		body := sub.eval(n.Args[1])
@@ -1279,7 +1287,7 @@ func (e *CEnv) applySpec(sf *SpecFunc, n *ast.CallExpr) *Val {
 		e.errf("spec func recursion too deep at %s", sf.Name)
 	}
 	sub := &CEnv{x: e.x, st: e.st, vars: map[string]*Val{}, bound: map[string]*Val{}, pkg: sf.Pkg, contract: e.contract,
-		oldHeap: e.oldHeap, curHeap: e.curHeap, inOld: e.inOld, traceBase: e.traceBase, specDepth: e.specDepth + 1, allocBefore: e.allocBefore, sides: e.sides, noPure: e.noPure, pol: e.pol}
+		oldHeap: e.oldHeap, curHeap: e.curHeap, inOld: e.inOld, traceBase: e.traceBase, specDepth: e.specDepth + 1, allocBefore: e.allocBefore, sides: e.sides, noPure: e.noPure, pol: e.pol, qvars: e.qvars}
 	if sf.Pkg == "" {
 		sub.pkg = e.pkg
 	}
